@@ -5,6 +5,6 @@ set -e
 D=$1
 git -C /repo worktree add -q --detach "$D" HEAD
 cd "$D"
-for f in $(git ls-files | grep 'contracts_verif.go$'); do git update-index --skip-worktree "$f"; rm -f "$f"; done
+for f in $(git ls-files | grep "_verif.go$"); do git update-index --skip-worktree "$f"; rm -f "$f"; done
 mkdir -p _out
-echo "_out/" >> .git/info/exclude 2>/dev/null || true
+echo "_out/" >> $(git rev-parse --git-path info/exclude)
